@@ -64,7 +64,7 @@ def classification(R, ctx):
     compress = ctx.has('compress')
     EFF = [r'^std::fs::remove_file$', r'^std::fs::File::(create|open)$', r'^std::io::copy$', r'GzEncoder::<W>::(new|finish)$',
            r'list_of_log_and_compressed_files$', r'PathBuf::set_extension$', r'OsString::push$', NEXT, r'^std::fs::', r'^std::os::unix::fs::']
-    I = FDI(f, effects=EFF, no_inline=[r'list_of_log_and_compressed_files$'], loop_k=1, max_steps=12000, max_rows=60000)
+    I = FDI(f, effects=EFF, no_inline=[r'list_of_log_and_compressed_files$'], loop_k=ctx.k(1, 2), max_steps=30000, max_rows=400000)
     rows = I.run(b.path)
     problems = {}
     counts = {}
